@@ -28,7 +28,17 @@ fn space(tier: Tier) -> &'static Space {
 /// hand-written texts covering productions the families do not print
 fn extra_texts() -> Vec<(String, String)> {
     let mut v: Vec<(String, String)> = crate::props::c15::PROGRAMS.iter().map(|(n, s)| (format!("c15:{n}"), s.to_string())).collect();
-    let more: [(&str, &str); 15] = [
+    let more: [(&str, &str); 22] = [
+        // a block comment that is the first thing on its line, in front of: a continuation operand, an opening brace, a
+        // comma (comma-first layout), the closing brace of a function body (all preserved on the unchanged tree), and
+        // - after a list comma - a tuple element, a call argument, a record field (dropped: listed finding)
+        ("comment_first_on_line_before_operand", "fn dsp(x) {\n  let y = x +\n    /* why */ 1.0\n  y\n}\n"),
+        ("comment_first_on_line_before_open_brace", "fn g()\n/* body */ {\n  1.0\n}\nfn dsp(x) {\n  g()\n}\n"),
+        ("comment_first_on_line_before_comma", "fn dsp(x) {\n  let t = (1.0\n    /* second */ , 2.0)\n  t.0\n}\n"),
+        ("comment_first_on_line_before_close_brace", "fn dsp(x) {\n  x\n  /* end */ }\n"),
+        ("comment_first_on_line_after_comma_tuple", "fn dsp(x) {\n  let t = (1.0,\n    /* c */ 2.0)\n  t.0\n}\n"),
+        ("comment_first_on_line_after_comma_argument", "fn dsp(x) {\n  let y = min(x,\n    /* arg */ 2.0)\n  y\n}\n"),
+        ("comment_first_on_line_after_comma_field", "fn dsp(x) {\n  let r = {a = 1.0,\n    /* f */ b = 2.0}\n  r.a\n}\n"),
         ("block_comment_before_first_token", "/* c */ fn dsp(x) {\n  x\n}\n"),
         ("block_comment_first_in_nested_block", "fn dsp(x) {\n  let v1 = {\n    /* c */ let b1 = x\n    b1\n  }\n  v1\n}\n"),
         ("block_comment_before_toplevel_item", "fn g(x) {\n  x\n}\n/* c */ fn dsp(x) {\n  g(x)\n}\n"),
@@ -231,6 +241,9 @@ impl Prop for C14 {
             if ls.iter().any(|l| l.starts_with("    ") && l.trim_start().starts_with("/*")) {
                 tags.push("block_comment_first_in_nested_block".into());
             }
+        }
+        if squeezed.contains(", /* c */ 2.0") || squeezed.contains(", /* arg */") || squeezed.contains(", /* f */") {
+            tags.push("block_comment_after_list_comma_at_line_start".into());
         }
         if squeezed.contains("} /* c */ fn ") {
             tags.push("block_comment_before_toplevel_item".into());
